@@ -40,6 +40,10 @@ typedef struct {
                                            interval */
   unsigned int MCU_vert_offset;         /* counts MCU rows within iMCU row */
   unsigned int MCU_rows_per_iMCU_row;   /* number of such rows needed */
+  unsigned int restart_pending;         /* bit r set: a restart interval begins
+                                           at MCU row r of this iMCU row, so
+                                           the undifferencer must be reset
+                                           just before that row */
 
   /* The output side's location is represented by cinfo->output_iMCU_row. */
 
@@ -110,6 +114,7 @@ start_input_pass(j_decompress_ptr cinfo)
 
   /* Initialize restart counter */
   diff->restart_rows_to_go = cinfo->restart_interval / cinfo->MCUs_per_row;
+  diff->restart_pending = 0;
 
   cinfo->input_iMCU_row = 0;
   start_iMCU_row(cinfo);
@@ -122,14 +127,18 @@ start_input_pass(j_decompress_ptr cinfo)
  */
 
 METHODDEF(boolean)
-process_restart(j_decompress_ptr cinfo)
+process_restart(j_decompress_ptr cinfo, unsigned int yoffset)
 {
   my_diff_ptr diff = (my_diff_ptr)cinfo->coef;
 
   if (!(*cinfo->entropy->process_restart) (cinfo))
     return FALSE;
 
-  (*cinfo->idct->start_pass) (cinfo);
+  /* The rows of this iMCU row are undifferenced only after all of them have
+   * been entropy-decoded, so the undifferencer must not be reset here; note
+   * which row starts the new restart interval instead.
+   */
+  diff->restart_pending |= 1U << yoffset;
 
   /* Reset restart counter */
   diff->restart_rows_to_go = cinfo->restart_interval / cinfo->MCUs_per_row;
@@ -178,7 +187,7 @@ decompress_data(j_decompress_ptr cinfo, _JSAMPIMAGE output_buf)
     /* Process restart marker if needed; may have to suspend */
     if (cinfo->restart_interval) {
       if (diff->restart_rows_to_go == 0)
-        if (!process_restart(cinfo))
+        if (!process_restart(cinfo, yoffset))
           return JPEG_SUSPENDED;
     }
 
@@ -208,6 +217,8 @@ decompress_data(j_decompress_ptr cinfo, _JSAMPIMAGE output_buf)
    * separately.  We do not process dummy samples at the end of a scanline
    * or dummy rows at the end of the image.
    */
+  if (diff->restart_pending & 1)
+    (*cinfo->idct->start_pass) (cinfo);
   for (ci = 0; ci < cinfo->comps_in_scan; ci++) {
     compptr = cinfo->cur_comp_info[ci];
     compi = compptr->component_index;
@@ -215,6 +226,9 @@ decompress_data(j_decompress_ptr cinfo, _JSAMPIMAGE output_buf)
          row < (cinfo->input_iMCU_row == last_iMCU_row ?
                 compptr->last_row_height : compptr->v_samp_factor);
          prev_row = row, row++) {
+      /* A restart can fall on row > 0 only in a noninterleaved scan. */
+      if (row > 0 && (diff->restart_pending & (1U << row)))
+        (*cinfo->idct->start_pass) (cinfo);
       (*losslessd->predict_undifference[compi])
         (cinfo, compi, diff->diff_buf[compi][row],
           diff->undiff_buf[compi][prev_row], diff->undiff_buf[compi][row],
@@ -224,6 +238,7 @@ decompress_data(j_decompress_ptr cinfo, _JSAMPIMAGE output_buf)
                                   compptr->width_in_blocks);
     }
   }
+  diff->restart_pending = 0;
 
   /* Completed the iMCU row, advance counters for next one.
    *
